@@ -177,7 +177,15 @@ def step (d : DState) (op impl : String) : DState × StepOut :=
       -- the regions of the exit sequence
       let fine : Option DState := match w' with
         | ["dead", a] => a.toNat?.map fun a => { d with st := markDead d.st a }
-        | ["demonall", a] => a.toNat?.map fun a => { d with st := demonitorAll d.st a }
+        | ["demontake", a] => a.toNat?.map fun a => { d with st := demonTake d.st a }
+        | ["demonkey", a, s, g] =>
+          match a.toNat?, s.toNat?, g.toNat? with
+          | some a, some s, some g => some { d with st := demonKey d.st a (s, g) }
+          | _, _, _ => none
+        | ["demonwkey", a, s] =>
+          match a.toNat?, s.toNat? with
+          | some a, some s => some { d with st := demonWKey d.st a s }
+          | _, _ => none
         | ["takemem", a] => a.toNat?.map fun a => { d with st := takeMem d.st a, removed := [] }
         | ["leavekey", a, s, g] =>
           match a.toNat?, s.toNat?, g.toNat? with
